@@ -808,6 +808,33 @@ def _t_literal_spellings(srcs):
             R().visit(tree)
 
 
+def _t_arith_spellings(srcs):
+    """operands of + and * swapped when one of them is a numeric constant (`x + 1` -> `1 + x`, `2 * x` -> `x * 2`); `x - 1` -> `x + -1` hmm no:
+    kept; `x / 2` -> `x * 0.5`; `x[0:n]` -> `x[:n]`; `x ** 2` -> `x * x` for a plain name x"""
+    import ast
+    num = lambda a: isinstance(a, ast.Constant) and type(a.value) in (int, float)
+
+    class R(ast.NodeTransformer):
+        def visit_BinOp(self, node):
+            self.generic_visit(node)
+            if isinstance(node.op, (ast.Add, ast.Mult)) and (num(node.left) != num(node.right)):
+                node.left, node.right = node.right, node.left
+            elif isinstance(node.op, ast.Div) and num(node.right) and node.right.value == 2:
+                return ast.copy_location(ast.BinOp(left=node.left, op=ast.Mult(), right=ast.Constant(0.5)), node)
+            elif isinstance(node.op, ast.Pow) and num(node.right) and node.right.value == 2 and isinstance(node.left, ast.Name):
+                return ast.copy_location(ast.BinOp(left=node.left, op=ast.Mult(), right=ast.Name(node.left.id, ast.Load())), node)
+            return node
+
+        def visit_Slice(self, node):
+            self.generic_visit(node)
+            if num(node.lower) and node.lower.value == 0 and node.step is None:
+                node.lower = None
+            return node
+    for pth, tree in srcs.items():
+        if not pth.endswith("plot.py"):
+            R().visit(tree)
+
+
 def _t_np_operators(srcs):
     """operators spelled as numpy functions where that is the same for every operand the code can see: a @ b -> np.matmul(a, b), np.eye(n) -> np.identity(n)"""
     import ast
@@ -1091,7 +1118,7 @@ def _t_accept_lists(srcs):
                         n.body[k:k] = ast.parse("if not isinstance(%s, np.ndarray):\n    %s = np.array(%s)\n" % (a.arg, a.arg, a.arg)).body
 
 
-TREE_TRANSFORMS = {"@coerce_params": _t_coerce_params, "@accept_lists": _t_accept_lists, "@early_exit": _t_early_exit, "@numpy_alias": _t_numpy_alias, "@kwargs_calls": _t_kwargs_calls, "@strip_docs_annotate": _t_strip_docs_annotate, "@logging": _t_logging, "@traced": _t_traced, "@kwonly": _t_kwonly, "@extra_param": _t_extra_param, "@try_reraise": _t_try_reraise, "@np_functions": _t_np_functions, "@small_idioms": _t_small_idioms, "@flip_comparisons": _t_flip_comparisons, "@else_after_exit": _t_else_after_exit, "@comp_to_loop": _t_comp_to_loop, "@logic_spellings": _t_logic_spellings, "@local_aliases": _t_local_aliases, "@method_spellings": _t_method_spellings, "@statement_spellings": _t_statement_spellings, "@loop_spellings": _t_loop_spellings, "@import_styles": _t_import_styles, "@np_constructors": _t_np_constructors, "@literal_spellings": _t_literal_spellings, "@np_operators": _t_np_operators, "@private_module": _t_private_module, "@swap_branches": _t_swap_branches, "@name_conditions": _t_name_conditions, "@ternary_to_if": _t_ternary_to_if,
+TREE_TRANSFORMS = {"@coerce_params": _t_coerce_params, "@accept_lists": _t_accept_lists, "@early_exit": _t_early_exit, "@numpy_alias": _t_numpy_alias, "@kwargs_calls": _t_kwargs_calls, "@strip_docs_annotate": _t_strip_docs_annotate, "@logging": _t_logging, "@traced": _t_traced, "@kwonly": _t_kwonly, "@extra_param": _t_extra_param, "@try_reraise": _t_try_reraise, "@np_functions": _t_np_functions, "@small_idioms": _t_small_idioms, "@flip_comparisons": _t_flip_comparisons, "@else_after_exit": _t_else_after_exit, "@comp_to_loop": _t_comp_to_loop, "@logic_spellings": _t_logic_spellings, "@local_aliases": _t_local_aliases, "@method_spellings": _t_method_spellings, "@statement_spellings": _t_statement_spellings, "@loop_spellings": _t_loop_spellings, "@import_styles": _t_import_styles, "@np_constructors": _t_np_constructors, "@literal_spellings": _t_literal_spellings, "@arith_spellings": _t_arith_spellings, "@np_operators": _t_np_operators, "@private_module": _t_private_module, "@swap_branches": _t_swap_branches, "@name_conditions": _t_name_conditions, "@ternary_to_if": _t_ternary_to_if,
                    "@shim": _t_shim}
 
 
